@@ -88,7 +88,8 @@ TimeSels ==
    <<Sp(Ev("sunrise", 0), Ev("sunset", 0))>>, <<Sp(Ev("dawn", 0), Fx(720))>>, <<Sp(Fx(720), Ev("dusk", 0))>>,
    <<Sp(Ev("sunrise", 60), Ev("sunset", -30))>>, <<Sp(Ev("dusk", -90), Fx(1500))>>,
    <<SpF(Fx(600), Fx(1440), "plus", -1)>>, <<SpF(Fx(600), Fx(720), "rangeplus", -1)>>, <<SpF(Ev("sunset", 0), Fx(1440), "plus", -1)>>,
-   <<SpF(Fx(600), Fx(960), "repeat", 30)>>, <<Sp(Fx(600), Fx(720)), SpF(Fx(840), Fx(1440), "plus", -1)>>}
+   <<SpF(Fx(600), Fx(960), "repeat", 30)>>, <<SpF(Fx(600), Fx(960), "repeat", 45)>>, <<SpF(Fx(600), Fx(960), "repeat_hm", 90)>>,
+   <<SpF(Fx(480), Fx(1080), "repeat_hm", 120)>>, <<SpF(Fx(600), Fx(960), "repeat_hm", 45)>>, <<SpF(Fx(0), Fx(1440), "repeat_hm", 601)>>, <<Sp(Fx(600), Fx(720)), SpF(Fx(840), Fx(1440), "plus", -1)>>}
 KindWords == {"", "open", "closed", "unknown"}
 Comments == {"", "on appointment"}
 
